@@ -7,11 +7,13 @@ from ..wire import lean_representable, request as rq
 
 ID = "C01"
 LEAN_MODULE = "BibVerif.Props.C01"
-LEVEL_TEXT = ("Lean theorem split_never_raises: for EVERY text (any size, nesting depth, line count) the splitter model "
-              "returns blocks and its internal 'cannot happen' exception states are unreachable (regex look-ahead lemma "
-              "atOK_lexFrom + automaton invariant); all model functions are total (structural/well-founded recursion "
-              "accepted by Lean), so no hang. Interpreter limits (RecursionError/MemoryError) cannot be exhibited by the "
-              "model and are covered by running size-scaled families on the real code each run.")
+LEVEL_TEXT = ("Lean theorems parse_total and write_total over the model of the WHOLE default pipeline (splitter, Library.add, "
+              "ResolveStringReferences, RemoveEnclosing, AddEnclosing in copy mode, writer): for EVERY text (any size, nesting "
+              "depth, line count) parse_string returns a library and write_string of that library returns a text; the "
+              "splitter's 'cannot happen' exception states are unreachable (regex look-ahead lemma atOK_lexFrom + automaton "
+              "invariant), every value it produces is a str (split_strBlocks), so none of the middlewares' failure modes can "
+              "occur; all model functions are total, so no hang. Interpreter limits (RecursionError/MemoryError) cannot be "
+              "exhibited by the model and are covered by running size-scaled families on the real code each run.")
 LEVEL_NOTE = ("Trusted: Lean kernel + 3 standard axioms; hand-written model (Lex/Split; the default stacks and writer are "
               "total model functions); correspondence run incl. size-scaled inputs; CPython re semantics. Not modelled: "
               "recursion limit and memory of the interpreter, logging.")
@@ -19,7 +21,8 @@ TECHNIQUE = "Lean 4 proof: unreachability of error states by an automaton invari
 RULE = ("corpus; every string of <= k tokens over { } \" , = NL \\ @a a SP behind 6 block prefixes (k=4 quick, 5 thorough); "
         "arbitrary Unicode garbage incl. lone surrogates (python-only stream: must not raise); size-scaled families "
         "(1e3..1e5 lines of blank/comment/value text, brace nesting 1e4, 2e4 blocks, unterminated blocks at EOF). For every "
-        "case the real parse_string AND write_string are run; compared with the model: the blocks handed to Library.add. "
+        "case the real parse_string AND write_string are run; compared with the model of the whole pipeline: the parsed "
+        "library (all attributes, metadata) and the written text. "
         "Non-trivial = at least one block.")
 EXHAUSTIVE = {"quick": False, "thorough": False}
 ASSUMPTIONS = ["the only exceptions able to leave Splitter.split are ParserStateException/RegexMismatchException "
@@ -104,7 +107,7 @@ def request(case):
     t = case["t"]
     if not lean_representable(t):
         return None
-    return rq("split", t, chars_of=t)
+    return rq("parsewrite", t, chars_of=t)
 
 
 def _pipeline(text):
@@ -116,11 +119,15 @@ def _pipeline(text):
 
 
 def impl(case):
+    from ..wire import enc, Sym
     text = case["t"]
-    lib, out = _pipeline(text)          # any exception becomes (raise X) in the runner
+    import bibtexparser
+    lib = bibtexparser.parse_string(text)          # any exception becomes (raise X) in the runner
+    sig = B.enc_blocks(lib.blocks, prev=False)
+    out = bibtexparser.write_string(lib)
     if not isinstance(out, str):
         return "(raise NotAString)"
-    return C.ok(B.enc_blocks(C.raw_split(text)))
+    return enc([Sym("ok"), sig, out])
 
 
 def oracle(case):
